@@ -1,13 +1,13 @@
 package props
 
 import (
-	"sync/atomic"
 	"crypto/sha1"
 	"encoding/hex"
 	"fmt"
 	"os"
 	"os/exec"
 	"strings"
+	"sync/atomic"
 
 	"github.com/vektah/gqlparser/v2/ast"
 	"github.com/vektah/gqlparser/v2/parser"
@@ -165,6 +165,53 @@ func runC10(c *core.Ctx) {
 		}
 		c.Seen(k.Expect != "valid", []byte(k.Query), []byte(k.Srcs[0]))
 	})
+	// histories: one schema object validates the whole small-scope family in order, in reverse order and
+	// in order again, then from all workers at once; every result must be the one a freshly loaded
+	// schema gives for that document alone (nothing an earlier validation did may be seen by a later one)
+	{
+		ss := SmallScopeLight()
+		ss = append(ss, ScaleDocsUpTo(101, 4097)...)
+		alone := make([]string, len(ss))
+		one := func(s *ast.Schema, q string) string {
+			doc, perr := parser.ParseQuery(&ast.Source{Input: q})
+			if perr != nil {
+				return "parse-err"
+			}
+			return strings.Join(fullErrors(validator.Validate(s, doc)), "\n")
+		}
+		c.Pool.ParFor(len(ss), func(w, i int) {
+			s, _ := loadImpl(smallScopeSchema)
+			alone[i] = one(s, ss[i].Query)
+		})
+		shared, _ := loadImpl(smallScopeSchema)
+		prev := ""
+		visit := func(pass string, i int) {
+			if got := one(shared, ss[i].Query); got != alone[i] {
+				c.ReportOracle("validation-depends-on-earlier-validations", map[string]interface{}{"schema": ss[i].Srcs, "query": ss[i].Query[:min(400, len(ss[i].Query))],
+					"pass": pass, "validated_just_before": prev[:min(400, len(prev))], "on_the_used_schema": got[:min(800, len(got))], "on_a_fresh_schema": alone[i][:min(800, len(alone[i]))]})
+			}
+			prev = ss[i].Query
+		}
+		for i := range ss {
+			visit("in order", i)
+		}
+		for i := len(ss) - 1; i >= 0; i-- {
+			visit("in reverse order", i)
+		}
+		for i := range ss {
+			visit("in order again", i)
+		}
+		for rep := 0; rep < 3; rep++ {
+			c.Pool.ParFor(len(ss), func(w, i int) {
+				if got := one(shared, ss[i].Query); got != alone[i] {
+					c.ReportOracle("differs-under-concurrent-validation", map[string]interface{}{"schema": ss[i].Srcs, "query": ss[i].Query[:min(400, len(ss[i].Query))],
+						"concurrently": got[:min(800, len(got))], "alone": alone[i][:min(800, len(alone[i]))]})
+				}
+			})
+		}
+		c.Evals += int64(7 * len(ss))
+		c.Count("history_documents_on_one_schema_object", int64(len(ss)))
+	}
 	// fresh processes: Go reseeds map iteration and hashing per process
 	exe, _ := os.Executable()
 	for p := 0; p < nProc; p++ {
